@@ -56,6 +56,17 @@ class RegModel:
             ms = [c for c in b.live_calls if hm_method(c) in HM_MUT and reg_class_of_call(c) == 'REGISTRY']
             if ms:
                 self.leaf[b.id] = ms
+        # an *un-registration* API (`unregister_function`): a body whose only effect on a registry is `remove`, and that
+        # neither the existing entry points, nor the evaluator / renderers, nor the fillers can reach — an explicit call
+        # of the user's, a different operation from the one "the most recent registration wins" speaks about
+        self.unreg = {}
+        roots = [prog.api(n).id for n in API if prog.api(n)]
+        roots += [b.id for b in prog.bodies if b.name.split('::')[-1] in ('exec', 'expr', 'describe') and b.j.get('reachable', b.is_pub)]
+        from_roots = prog.reach(roots)
+        for bid, ms in list(self.leaf.items()):
+            if [hm_method(c) for c in ms] == ['remove'] and bid not in from_roots and not any(
+                    bid in prog.reach([h.j.get('parent')]) for h in prog.builtin_handlers() if h.is_closure and h.j.get('parent') in prog.by_id):
+                self.unreg[bid] = self.leaf.pop(bid)
         # fillers: bodies that create built-in handler closures
         hs = prog.builtin_handlers()
         fl = {h.j.get('parent') for h in hs if h.is_closure and h.j.get('parent') in prog.by_id}
@@ -85,6 +96,19 @@ class RegModel:
                     self.family.add(b.id)
                     self.forward_call[b.id] = c
                     changed = True
+        # ... or that register a handler obtained from a local factory (`manager.register(op, p, CALC, LEFT, integer_handler(op))`
+        # where integer_handler is the parent of the handler closure)
+        fl0 = set(self.fillers)
+        for b in prog.bodies:
+            if b.id in fl0 or b.id in self.family or b.id in api_ids or b.is_closure:
+                continue
+            for c in b.live_calls:
+                if c.ruid in self.family and any(
+                        (lambda o: o is not None and o.kind == 'callres' and not o.proj and o.data.ruid in fl0)(single_origin(trace_operand(b, a, through_calls=set())))
+                        for a in c.args[1:]):
+                    fl.add(b.id)
+                    break
+        self.fillers = sorted(fl)
         self.writers = {bid: self.leaf.get(bid, [self.forward_call.get(bid)]) for bid in self.family}
         self.reach_writer = lm._closure(lambda bid: bid in self.family)
         self.reg_lockers = {b.id for b in prog.bodies
@@ -277,6 +301,9 @@ def rule_winsert(rm):
             obs.append(bad('WINSERT', k2, 'registry writer %s is called from %s (only register_* and the built-in fillers may write)' % (b.name, extra), b.where(), body=b.name))
         else:
             obs.append(ok('WINSERT', k2, 'registry writer %s is called only from register_*, the built-in fillers and other writers' % b.name, b.where()))
+    for bid, calls in sorted(getattr(rm, 'unreg', {}).items()):
+        b = prog.by_id[bid]
+        obs.append(ok('WINSERT', 'WINSERT|unregister|%s' % b.name, '%s only removes an entry and is reachable from no existing entry point, the evaluator, the renderers or the fillers: an explicit un-registration API' % b.name, b.where()))
     obs.append(floor('WINSERT', 'leaf-writers', len(rm.leaf), 1, 'some body inserts into the registries'))
     # public register_* pass their parameters straight through, in order, to one writer
     for n in REGISTER_API:
@@ -487,4 +514,137 @@ def rule_reg_snapshot(rm):
                                    b.where(bb), body=b.name, bb=bb))
     if n == 0:
         obs.append(ok('REG-SNAPSHOT', 'REG-SNAPSHOT|none', 'no struct of the crate is built from a registry read: every use of the operator / function tables reads them live'))
+    return obs
+
+
+def _derives(b, op, bbs, depth=0):
+    """does the operand (through moves, `?`, aggregates, arithmetic, discriminant reads) derive from the result of a
+    call made in one of the blocks `bbs`"""
+    if depth > 6:
+        return False
+    for o in trace_operand(b, op, through_calls=THROUGH):
+        if o.kind == 'callres':
+            if o.data.bb in bbs:
+                return True
+            if (o.data.callee or '') in THROUGH or (o.data.callee or '').startswith(('std::ops::Try::', 'std::ops::FromResidual::')):
+                if any(_derives(b, a, bbs, depth + 1) for a in o.data.args):
+                    return True
+        elif o.kind == 'agg':
+            if any(_derives(b, x, bbs, depth + 1) for x in o.data[2]['ops']):
+                return True
+        elif o.kind == 'binop':
+            if _derives(b, o.data[2]['a'], bbs, depth + 1) or _derives(b, o.data[2]['b'], bbs, depth + 1):
+                return True
+        elif o.kind in ('unop', 'cast'):
+            x = o.data[2].get('a') or o.data[2].get('op')
+            if x is not None and _derives(b, x, bbs, depth + 1):
+                return True
+        elif o.kind == 'discr':
+            if _derives(b, {'k': 'copy', 'pl': o.data[2]['pl']}, bbs, depth + 1):
+                return True
+    return False
+
+
+def _same_decision(b, c1, c2):
+    """the two reads belong to one decision: what one returned selects whether / how the other's result is used
+    (control dependence), or both results end up in one value (the return value, one call's arguments)"""
+    from r_panic import edge_dominates, switch_edges
+    for x, y in ((c1, c2), (c2, c1)):
+        for sb in sorted(b.live_blocks):
+            t = b.blocks[sb]['term']
+            if t['k'] != 'switch' or not _derives(b, t['discr'], {x.bb}):
+                continue
+            if any(edge_dominates(b, sb, tb, y.bb) for v, tb in switch_edges(b, sb)):
+                return True
+            # ... or the use of y's result sits under that switch
+            for v, tb in switch_edges(b, sb):
+                region = b.reachable_from(tb)
+                for c in b.live_calls:
+                    if c.bb in region and edge_dominates(b, sb, tb, c.bb) and (c.is_indirect or c.is_virtual) and \
+                            (_derives(b, c.term['func'], {y.bb}) if c.is_indirect else any(_derives(b, a, {y.bb}) for a in c.args[:1])):
+                        return True
+    ret = {'k': 'copy', 'pl': {'l': 0, 'p': [], 'ty': b.locals[0]['ty']}}
+    if _derives(b, ret, {c1.bb}) and _derives(b, ret, {c2.bb}):
+        return True
+    for c in b.live_calls:
+        if c.bb in (c1.bb, c2.bb):
+            continue
+        if any(_derives(b, a, {c1.bb}) for a in c.args) and any(_derives(b, a, {c2.bb}) for a in c.args):
+            return True
+    return False
+
+
+def rule_reg_record(rm):
+    """one decision, one lookup: a body that needs several fields of the record registered under one name (an infix
+    operator's type *and* its handler, its precedence *and* its associativity) reads them in ONE lock acquisition.
+    Two keyed reads of the same registry with the same key in one body can straddle a re-registration: the body then
+    acts on a record that was never registered (type of the old registration, handler of the new one)."""
+    import r_parse, r_misc
+    prog = rm.prog
+    obs = []
+    reg_statics = {st['id'] for st in prog.f.statics if r_misc.classify_static(st) == 'REGISTRY'}
+    # keyed readers: take a &str key and (transitively) hand it, unchanged, to a body that locks a registry
+    keyed = {}       # body id -> parameter index of the key
+    for g in prog.bodies:
+        if g.id in rm.reg_lockers and not g.is_closure:
+            ks = [k for k in range(1, g.arg_count + 1) if 'str' in g.locals[k]['ty'] and g.locals[k]['ty'].startswith('&')]
+            if len(ks) == 1:
+                keyed[g.id] = ks[0]
+    changed = True
+    while changed:
+        changed = False
+        for g in prog.bodies:
+            if g.id in keyed or g.derived or g.is_closure or g.id in rm.family or g.id in rm.fillers:
+                continue
+            for c in g.live_calls:
+                if c.ruid in keyed and keyed[c.ruid] - 1 < len(c.args):
+                    o = single_origin(trace_operand(g, c.args[keyed[c.ruid] - 1], through_calls=THROUGH))
+                    if o is not None and o.kind == 'param' and not o.proj and 'str' in g.locals[o.data]['ty']:
+                        keyed[g.id] = o.data
+                        changed = True
+                        break
+    stat_of = {}
+    def statics(uid):
+        # which registry a keyed reader reads: the registry statics it reaches, or (a method on a manager that was
+        # built by the caller) the manager type of its receiver
+        if uid not in stat_of:
+            st = r_parse._statics_reached(prog, uid) & reg_statics
+            g = prog.by_id[uid]
+            if not st and g.arg_count >= 1 and keyed.get(uid) != 1:
+                st = {'recv:' + re.sub(r"^&(mut )?", '', g.locals[1]['ty'])}
+            stat_of[uid] = st
+        return stat_of[uid]
+    n = 0
+    for b in prog.bodies:
+        if b.derived or b.id in rm.reg_lockers:
+            continue
+        reads = []
+        for c in b.live_calls:
+            if c.ruid not in keyed or keyed[c.ruid] - 1 >= len(c.args):
+                continue
+            ty = c.term['dest']['ty']
+            if ty in ('bool', '()'):
+                continue       # a membership test; the record itself is read elsewhere
+            o = single_origin(trace_operand(b, c.args[keyed[c.ruid] - 1], through_calls=THROUGH))
+            if o is None or o.kind == 'const':
+                continue
+            reads.append((c, (o.kind, o.key()[1], o.proj)))
+        for i, (c1, k1) in enumerate(reads):
+            for c2, k2 in reads[i + 1:]:
+                if k1 != k2 or c1.bb == c2.bb:
+                    continue
+                if not (statics(c1.ruid) & statics(c2.ruid)):
+                    continue
+                if c2.bb not in b.reachable_after(c1.bb) and c1.bb not in b.reachable_after(c2.bb):
+                    continue
+                if not _same_decision(b, c1, c2):
+                    continue       # two independent questions about the same name (each answered by one read)
+                n += 1
+                g1, g2 = prog.by_id[c1.ruid].name.split('::')[-1], prog.by_id[c2.ruid].name.split('::')[-1]
+                obs.append(bad('REG-RECORD', 'REG-RECORD|%s|%s+%s' % (b.name, g1, g2),
+                               '%s reads the record registered under one name in two separate lock acquisitions (%s at %s, %s at %s): a re-registration in between makes it act on a combination that was never registered'
+                               % (b.name.split('::')[-1], g1, c1.where(), g2, c2.where()), c1.where(), body=b.name, bb=c1.bb))
+    if n == 0:
+        obs.append(ok('REG-RECORD', 'REG-RECORD|none', 'no body reads two parts of one registry record in separate acquisitions (%d keyed readers)' % len(keyed)))
+    obs.append(floor('REG-RECORD', 'keyed-readers', len(keyed), 4, 'lookups by name into the four registries'))
     return obs
